@@ -1,4 +1,6 @@
 import FV.Proofs.SplitRects
+import FV.Props.C01
+import FV.Model.DieObj
 import Mathlib.Algebra.Order.Archimedean.Basic
 /-
   C11 — Die refinement keeps the tiling, reaches the count and bounds the aspect ratio.
@@ -11,7 +13,13 @@ import Mathlib.Algebra.Order.Archimedean.Basic
   `split_terminates` shows that a finite, explicit amount of fuel always produces a result on admissible arguments
   and `split_fuel_irrelevant` that the result does not depend on the fuel.  Termination needs the aspect ratios of
   the inputs to be bounded by `ratio * 2^K` for some `K`: automatic in Archimedean fields (`exists_aspect_bound`),
-  an explicit hypothesis otherwise.
+  an explicit hypothesis otherwise.  At `ℚ` — the type at which the driver executes the exact stream — the fuel is COMPUTED from
+  the arguments (`DieObj.fuelQ`) and proved sufficient (`splitQ_returns`, `splitQ_never_out_of_fuel`, `obj_splitQ_total`): no fuel
+  argument and no fuel hypothesis is left there.
+
+  Last part: the `Die` OBJECT (`FV/Model/DieObj.lean`): the methods on the value the constructor model of C01 returns, sessions
+  of calls (`session_invariant`), the die without refinable region (`dieSplit_no_refinable`), and the composition with the
+  constructor from its documents (`constructed_session`).
 -/
 namespace FV.C11
 open FV FV.Rect FV.C18 FV.SplitRects
@@ -346,5 +354,439 @@ example : ∃ fuel d', splitRefinableRegions fuel dieEx (142/100) 7 = .ok d' ∧
 example : (match initialGrid (⟨⟨2, 1, 4, 2, "_", false, false, .nopoly⟩, [], [⟨2, 1, 4, 2, "_", false, false, .nopoly⟩], [], []⟩ : DieSt ℚ) 2 3 with
     | .ok d => d.ground.length == 6
     | .error _ => false) = true := by decide +kernel
+
+section die_object
+open FV.Die FV.DieObj
+
+/-! ### a die without refinable region (as the code does: `heappop` on the empty heap) -/
+
+/-- **no refinable region**: with admissible arguments and an EMPTY list of regions phase 1 leaves the heap empty, `n ≥ 1`
+    regions are still missing, and `heapq.heappop([])` raises `IndexError` — for every positive fuel. -/
+theorem split_no_refinable (fuel : Nat) (ratio : α) (n : Nat) (hf : 1 ≤ fuel) (hn : 1 ≤ n) (hr : ratioMin < ratio) :
+    splitRectangles fuel ([] : List (Rect α)) ratio n = .error .index := by
+  obtain ⟨f, rfl⟩ : ∃ f, fuel = f + 1 := ⟨fuel - 1, by omega⟩
+  unfold splitRectangles
+  rw [if_neg (by omega), if_neg (by simp [hr])]
+  have h1 : phase1 ratio (f + 1) ([] : List (Rect α)).reverse #[] = .ok #[] := rfl
+  rw [h1]
+  have h2 : ¬ n ≤ (#[] : Array (PR α)).size := by simp; omega
+  simp only [h2, ↓reduceIte]
+  have h3 : Heapq.heapify prLt (#[] : Array (PR α)) = #[] := by simp [Heapq.heapify]
+  rw [h3]
+  unfold phase2
+  have h4 : (#[] : Array (PR α)).size < n := by simp; omega
+  simp only [h4, ↓reduceIte]
+  rfl
+
+/-- … hence `split_refinable_regions` on a die whose free area is entirely blocked (no ground, no specialised region) raises
+    `IndexError`, and (the exception comes before the assignment) leaves the die as it was. -/
+theorem dieSplit_no_refinable (fuel : Nat) (d : DieSt α) (ratio : α) (n : Nat) (hf : 1 ≤ fuel) (hn : 1 ≤ n)
+    (hr : ratioMin < ratio) (he : (floorplanningRectangles d).1 = []) :
+    splitRefinableRegions fuel d ratio n = .error .index := by
+  unfold splitRefinableRegions
+  rw [if_neg (by omega), if_neg (by simp [hr])]
+  have e : d.specialized ++ d.ground = (floorplanningRectangles d).1 := rfl
+  rw [e, he, split_no_refinable fuel ratio n hf hn hr]
+
+/-- **total characterisation** of `split_refinable_regions` over Archimedean fields, for EVERY die with proper regions and
+    admissible arguments: either there is a refinable region and (for some fuel) a die comes back that satisfies the
+    property, or there is none and every run (any positive fuel) raises `IndexError`. -/
+theorem dieSplit_total_cases [Archimedean α] (d : DieSt α) (ratio : α) (n : Nat) (hn : 1 ≤ n) (hratio : ratioMin < ratio)
+    (hpos : Proper (floorplanningRectangles d).1) :
+    ((floorplanningRectangles d).1 = [] ∧ ∀ fuel, 1 ≤ fuel → splitRefinableRegions fuel d ratio n = .error .index) ∨
+    ((floorplanningRectangles d).1 ≠ [] ∧ ∃ fuel d', splitRefinableRegions fuel d ratio n = .ok d' ∧
+      Refines (floorplanningRectangles d).1 (floorplanningRectangles d').1 ∧
+      n ≤ (floorplanningRectangles d').1.length ∧ (∀ o ∈ (floorplanningRectangles d').1, o.aspectRatio ≤ ratio) ∧
+      d'.blockages = d.blockages ∧ d'.fixed = d.fixed ∧ d'.die = d.die) := by
+  by_cases he : (floorplanningRectangles d).1 = []
+  · exact Or.inl ⟨he, fun fuel hf => dieSplit_no_refinable fuel d ratio n hf hn hratio he⟩
+  · exact Or.inr ⟨he, dieSplit_total_archimedean d ratio n he hn hratio hpos⟩
+
+/-! ### no fuel at `Rat`: the fuel is computed from the arguments and provably suffices -/
+
+theorem aspect_le_pow_levelQ (r : Rect ℚ) (hw : 0 < r.w) (hh : 0 < r.h) : r.aspectRatio ≤ 2 ^ levelQ r := by
+  have h1 := one_le_aspectRatio r hw hh
+  have hq : (0 : ℚ) < r.aspectRatio := by linarith
+  have hnum : 0 < r.aspectRatio.num := Rat.num_pos.mpr hq
+  have hden : (1 : ℚ) ≤ (r.aspectRatio.den : ℚ) := by exact_mod_cast r.aspectRatio.den_pos
+  have e := Rat.num_div_den r.aspectRatio
+  have hle : r.aspectRatio ≤ (r.aspectRatio.num : ℚ) := by
+    calc r.aspectRatio = (r.aspectRatio.num : ℚ) / (r.aspectRatio.den : ℚ) := e.symm
+      _ ≤ (r.aspectRatio.num : ℚ) := div_le_self (by exact_mod_cast le_of_lt hnum) hden
+  have hn : (r.aspectRatio.num : ℚ) = ((r.aspectRatio.num.natAbs : ℕ) : ℚ) := by
+    have : ((r.aspectRatio.num.natAbs : ℕ) : ℤ) = r.aspectRatio.num := Int.natAbs_of_nonneg (le_of_lt hnum)
+    rw [← Int.cast_natCast, this]
+  have hlt : ((r.aspectRatio.num.natAbs : ℕ) : ℚ) < 2 ^ levelQ r := by
+    unfold levelQ
+    exact_mod_cast (Nat.lt_log2_self (n := r.aspectRatio.num.natAbs))
+  linarith
+
+theorem levelQ_le_levelsQ (rs : List (Rect ℚ)) (r : Rect ℚ) (hr : r ∈ rs) : levelQ r ≤ levelsQ rs := by
+  unfold levelsQ
+  have key : ∀ (l : List (Rect ℚ)) (k : Nat), k ≤ l.foldl (fun k r => max k (levelQ r)) k ∧
+      ∀ x ∈ l, levelQ x ≤ l.foldl (fun k r => max k (levelQ r)) k := by
+    intro l
+    induction l with
+    | nil => intro k; exact ⟨le_refl _, fun x hx => by cases hx⟩
+    | cons a t ih =>
+      intro k
+      obtain ⟨i1, i2⟩ := ih (max k (levelQ a))
+      simp only [List.foldl_cons]
+      refine ⟨le_trans (le_max_left _ _) i1, fun x hx => ?_⟩
+      rcases List.mem_cons.mp hx with rfl | hx
+      · exact le_trans (le_max_right _ _) i1
+      · exact i2 x hx
+  exact (key rs 0).2 r hr
+
+/-- **`split_rectangles` at `ℚ` needs no fuel hypothesis**: with the fuel `fuelQ` computed from the arguments the model
+    returns on all admissible arguments (at least one proper region, `n ≥ 1`, `ratio > 1.415`), and what it returns satisfies
+    the three clauses.  (`ℚ` is the type at which the driver executes the model on the exact stream, with this fuel.) -/
+theorem splitQ_returns (ins : List (Rect ℚ)) (ratio : ℚ) (n : Nat) (hne : ins ≠ []) (hn : 1 ≤ n)
+    (hratio : ratioMin < ratio) (hpos : Proper ins) :
+    ∃ outs, splitRectanglesQ ins ratio n = .ok outs ∧ Refines ins outs ∧ n ≤ outs.length ∧
+      ∀ o ∈ outs, o.aspectRatio ≤ ratio := by
+  obtain ⟨_, hr1⟩ := ratio_facts ratio hratio
+  have hK : ∀ r ∈ ins, r.aspectRatio ≤ ratio * 2 ^ (levelsQ ins) := by
+    intro r hr
+    have h1 := aspect_le_pow_levelQ r (hpos r hr).1 (hpos r hr).2
+    have h2 : (2 : ℚ) ^ levelQ r ≤ 2 ^ levelsQ ins := pow_le_pow_right₀ (by norm_num) (levelQ_le_levelsQ ins r hr)
+    have h3 : (0 : ℚ) < 2 ^ levelsQ ins := by positivity
+    nlinarith
+  obtain ⟨outs, h⟩ := split_terminates ins ratio n (levelsQ ins) hne hn hratio hpos hK
+  obtain ⟨a, b, c⟩ := splitRectangles_sound _ ins ratio n outs hpos h
+  exact ⟨outs, h, a, c, b⟩
+
+/-- never out of fuel at `ℚ`: on admissible arguments `splitRectanglesQ` either returns or (empty list) raises `IndexError`. -/
+theorem splitQ_never_out_of_fuel (ins : List (Rect ℚ)) (ratio : ℚ) (n : Nat) (hn : 1 ≤ n) (hratio : ratioMin < ratio)
+    (hpos : Proper ins) : splitRectanglesQ ins ratio n ≠ .error .fuel := by
+  by_cases hne : ins = []
+  · subst hne
+    unfold splitRectanglesQ
+    rw [split_no_refinable _ ratio n (by unfold fuelQ; omega) hn hratio]
+    intro h; cases h
+  · obtain ⟨outs, h, _⟩ := splitQ_returns ins ratio n hne hn hratio hpos
+    rw [h]; intro h'; cases h'
+/-! ### the `Die` OBJECT: method calls on what the constructor returned (`FV/Model/DieObj.lean`) -/
+
+/-- what every `Die` object satisfies from its construction on (for a valid description: `FV.C01.die_complete`,
+    `construct_complete`, `die_sound`) and keeps through every method call: its regions tile the die exactly, the refinable
+    ones are proper rectangles, ground regions carry the ground tag and no flag. -/
+structure Inv (o : DieOut α) : Prop where
+  tiling : C01.ExactTiling o
+  proper : Proper (fpRects o).1
+  groundTag : ∀ g ∈ o.ground, g.region = kwGround ∧ g.fixed = false ∧ g.hard = false
+  specTag : ∀ s ∈ o.specialized, s.region ≠ kwGround
+
+/-- every current refinable region is a piece of one of the former ones: inside it, same tag and flags, proper. -/
+def PiecesOf (orig cur : List (Rect α)) : Prop := ∀ p ∈ cur, ∃ i ∈ orig, PieceOf i p
+
+theorem piecesOf_refl (l : List (Rect α)) (h : Proper l) : PiecesOf l l :=
+  fun p hp => ⟨p, hp, isInside_refl p, rfl, rfl, rfl, (h p hp).1, (h p hp).2⟩
+
+theorem piecesOf_trans (a b c : List (Rect α)) (h1 : PiecesOf a b) (h2 : PiecesOf b c) : PiecesOf a c := by
+  intro p hp
+  obtain ⟨j, hj, q1, q2, q3, q4, q5, q6⟩ := h2 p hp
+  obtain ⟨i, hi, r1, r2, r3, r4, _, _⟩ := h1 j hj
+  exact ⟨i, hi, isInside_trans p j i q1 r1, q2.trans r2, q3.trans r3, q4.trans r4, q5, q6⟩
+
+theorem piecesOf_of_refines (ins outs : List (Rect α)) (h : Refines ins outs) : PiecesOf ins outs :=
+  fun p hp => refines_mem ins outs h p hp
+
+/-- the frame of both refining methods: whatever they return, blockages, fixed regions and the die size are untouched. -/
+theorem withSt_frame (o : DieOut α) (s : DieSt α) (hb : s.blockages = o.blockages) (hf : s.fixed = o.fixed) :
+    (withSt o s).blockages = o.blockages ∧ (withSt o s).fixed = o.fixed ∧ (withSt o s).W = o.W ∧ (withSt o s).H = o.H ∧
+    (fpRects (withSt o s)).1 = s.specialized ++ s.ground := ⟨hb, hf, rfl, rfl, rfl⟩
+
+/-- replacing the refinable regions of an exactly tiled die by a refinement of them keeps the exact tiling. -/
+theorem exactTiling_of_refines (o o' : DieOut α) (hW : o'.W = o.W) (hH : o'.H = o.H) (hb : o'.blockages = o.blockages)
+    (hf : o'.fixed = o.fixed) (ht : C01.ExactTiling o)
+    (hr : Refines (o.specialized ++ o.ground) (o'.specialized ++ o'.ground)) : C01.ExactTiling o' := by
+  have hall : o.all = (o.specialized ++ o.ground) ++ (o.blockages ++ o.fixed) := by
+    simp [DieOut.all, List.append_assoc]
+  have hall' : o'.all = (o'.specialized ++ o'.ground) ++ (o.blockages ++ o.fixed) := by
+    simp [DieOut.all, List.append_assoc, hb, hf]
+  obtain ⟨hin, hpw, harea⟩ := ht
+  rw [hall] at hin hpw harea
+  refine ⟨?_, ?_, ?_⟩
+  · intro r hr'
+    rw [hall'] at hr'
+    rw [hW, hH]
+    rcases List.mem_append.mp hr' with c | c
+    · obtain ⟨i, hi, hp⟩ := refines_mem _ _ hr r c
+      obtain ⟨a1, a2, a3, a4⟩ := (isInside_iff_coords r i).mp hp.1
+      obtain ⟨b1, b2, b3, b4⟩ := hin i (List.mem_append_left _ hi)
+      exact ⟨le_trans b1 a1, le_trans a3 b2, le_trans b3 a2, le_trans a4 b4⟩
+    · exact hin r (List.mem_append_right _ c)
+  · rw [hall']
+    obtain ⟨p1, p2, p3⟩ := List.pairwise_append.mp hpw
+    refine List.pairwise_append.mpr ⟨refines_disjoint _ _ hr p1, p2, ?_⟩
+    intro a ha b hb'
+    obtain ⟨i, hi, hp⟩ := refines_mem _ _ hr a ha
+    exact areaOverlap_zero_of_inside a i b hp.1 (p3 i hi b hb')
+  · rw [hall', hW, hH]
+    rw [List.map_append, List.sum_append] at harea ⊢
+    rw [refines_area _ _ hr]
+    exact harea
+
+/-- **`split_refinable_regions` on the object**: when it returns, the object still tiles the die exactly, blockages / fixed
+    regions / die size are untouched, the refinable regions refine the former ones (each inside the region it was cut from,
+    with its tag), there are at least `n`, each of aspect ratio at most `ratio`. -/
+theorem obj_split_spec (fuel : Nat) (o o' : DieOut α) (ratio : α) (n : Nat) (hinv : Inv o)
+    (h : DieObj.split fuel o ratio n = .ok o') :
+    Inv o' ∧ o'.blockages = o.blockages ∧ o'.fixed = o.fixed ∧ o'.W = o.W ∧ o'.H = o.H ∧
+    Refines (fpRects o).1 (fpRects o').1 ∧ n ≤ (fpRects o').1.length ∧ ∀ r ∈ (fpRects o').1, r.aspectRatio ≤ ratio := by
+  unfold DieObj.split at h
+  split at h
+  · cases h
+  · rename_i s hs
+    simp only [Except.ok.injEq] at h
+    subst h
+    obtain ⟨e1, e2, _, g1, g2, _⟩ := dieSplit_spec fuel (toSt o) s ratio n hs
+    obtain ⟨r1, r2, r3⟩ := dieSplit_refines fuel (toSt o) s ratio n hinv.proper hs
+    have hr : Refines (o.specialized ++ o.ground) ((withSt o s).specialized ++ (withSt o s).ground) := r1
+    refine ⟨⟨exactTiling_of_refines o (withSt o s) rfl rfl e1 e2 hinv.tiling hr, ?_, ?_, g2⟩, e1, e2, rfl, rfl, r1, r2, r3⟩
+    · intro p hp; exact refines_pos _ _ r1 p hp
+    · intro g hg
+      have hreg := g1 g hg
+      obtain ⟨i, hi, hp⟩ := refines_mem _ _ r1 g (List.mem_append_right _ hg)
+      rcases List.mem_append.mp hi with c | c
+      · exact absurd (hp.2.1.symm.trans hreg) (hinv.specTag i c)
+      · obtain ⟨t1, t2, t3⟩ := hinv.groundTag i c
+        exact ⟨hreg, hp.2.2.1.trans t2, hp.2.2.2.1.trans t3⟩
+
+/-- a single proper rectangle that lies inside the die and has the die's area IS the die outline. -/
+theorem sole_region_is_die (W H : α) (g : Rect α) (hw : 0 < g.w) (hh : 0 < g.h)
+    (hin : 0 ≤ g.xmin ∧ g.xmax ≤ W ∧ 0 ≤ g.ymin ∧ g.ymax ≤ H) (ha : g.area = W * H) :
+    g.cx = W / 2 ∧ g.cy = H / 2 ∧ g.w = W ∧ g.h = H := by
+  obtain ⟨a1, a2, a3, a4⟩ := hin
+  simp only [Rect.xmin, Rect.xmax, Rect.ymin, Rect.ymax, Rect.area, two_eq] at *
+  have hwW : g.w ≤ W := by linarith
+  have hhH : g.h ≤ H := by linarith
+  have hW : 0 < W := by linarith
+  have hH : 0 < H := by linarith
+  have ew : g.w = W := by
+    by_contra hne
+    have hlt : g.w < W := lt_of_le_of_ne hwW hne
+    have : g.w * g.h < W * H := by nlinarith
+    linarith
+  have eh : g.h = H := by
+    by_contra hne
+    have hlt : g.h < H := lt_of_le_of_ne hhH hne
+    have : g.w * g.h < W * H := by nlinarith
+    linarith
+  refine ⟨?_, ?_, ew, eh⟩ <;> linarith
+
+/-- **`initial_grid` on the object**: it returns exactly on a clean object with a sensible grid shape; then there are
+    `rows × columns` ground regions, the object still tiles the die exactly, nothing else is touched, and the cells refine
+    the single former ground region (which is the die outline). -/
+theorem obj_grid_spec (o o' : DieOut α) (nr nc : Nat) (hinv : Inv o) (h : DieObj.grid o nr nc = .ok o') :
+    Inv o' ∧ o'.blockages = o.blockages ∧ o'.fixed = o.fixed ∧ o'.W = o.W ∧ o'.H = o.H ∧
+    Refines (fpRects o).1 (fpRects o').1 ∧ (fpRects o').1.length = nr * nc ∧
+    o.specialized = [] ∧ o.blockages = [] ∧ o.fixed = [] ∧ o.ground.length = 1 := by
+  unfold DieObj.grid at h
+  split at h
+  · cases h
+  · rename_i s hs
+    simp only [Except.ok.injEq] at h
+    subst h
+    obtain ⟨⟨_, _, _⟩, ⟨c1, c2, c3⟩, c4⟩ := (initialGrid_ok_iff (toSt o) nr nc).mp ⟨s, hs⟩
+    have c1' : o.fixed = [] := c1
+    have c2' : o.specialized = [] := c2
+    have c3' : o.blockages = [] := c3
+    have c4' : o.ground.length = 1 := c4
+    obtain ⟨g, hg⟩ := List.length_eq_one_iff.mp c4'
+    have hgm : g ∈ (fpRects o).1 := by simp [fpRects, floorplanningRectangles, toSt, hg]
+    obtain ⟨gw, gh⟩ := hinv.proper g hgm
+    have hall : o.all = [g] := by simp [DieOut.all, c1', c2', c3', hg]
+    obtain ⟨hin, _, harea⟩ := hinv.tiling
+    rw [hall] at hin harea
+    have hgin := hin g (by simp)
+    have hga : g.area = o.W * o.H := by simpa using harea
+    obtain ⟨q1, q2, q3, q4⟩ := sole_region_is_die o.W o.H g gw gh hgin hga
+    obtain ⟨t1, t2, t3⟩ := hinv.groundTag g (by rw [hg]; simp)
+    have hdw : 0 < (toSt o).die.w := by show 0 < o.W; rw [← q3]; exact gw
+    have hdh : 0 < (toSt o).die.h := by show 0 < o.H; rw [← q4]; exact gh
+    have hgeo : Stog.eraseLoc g = Stog.eraseLoc (toSt o).die := by
+      obtain ⟨cx, cy, w, hh', reg, fx, hd, loc⟩ := g
+      simp only at q1 q2 q3 q4 t1 t2 t3
+      subst q1 q2 q3 q4 t1 t2 t3
+      simp [Stog.eraseLoc, toSt, boundingBox, dieRect, kwGround, two_eq]
+    obtain ⟨hl, ht, e1, e2, e3, _, href⟩ := initialGrid_spec (toSt o) s nr nc hdw hdh hs
+    have hr : Refines (fpRects o).1 (fpRects (withSt o s)).1 := href g hg hgeo
+    have hs1 : s.specialized = [] := by rw [e1]; exact c2'
+    have hr' : Refines (o.specialized ++ o.ground) ((withSt o s).specialized ++ (withSt o s).ground) := hr
+    refine ⟨⟨exactTiling_of_refines o (withSt o s) rfl rfl e2 e3 hinv.tiling hr', ?_, ?_, ?_⟩, e2, e3, rfl, rfl, hr, ?_,
+      c2', c3', c1', c4'⟩
+    · intro p hp; exact refines_pos _ _ hr p hp
+    · intro p hp
+      obtain ⟨i, hi, hpp⟩ := refines_mem _ _ hr p (List.mem_append_right _ hp)
+      have hig : i = g := by
+        simp [fpRects, floorplanningRectangles, toSt, c2', hg] at hi
+        exact hi
+      subst hig
+      exact ⟨hpp.2.1.trans t1, hpp.2.2.1.trans t2, hpp.2.2.2.1.trans t3⟩
+    · intro p hp
+      have : (withSt o s).specialized = [] := hs1
+      rw [this] at hp; cases hp
+    · show (s.specialized ++ s.ground).length = nr * nc
+      rw [hs1]; simpa using hl
+
+/-- a call that raises leaves the object as it was; a call that returns satisfies the method's specification. -/
+theorem step_spec (fuelOf : List (Rect α) → α → Nat → Nat) (o : DieOut α) (c : Call α) (hinv : Inv o) :
+    ((step fuelOf o c).2 ≠ none → (step fuelOf o c).1 = o) ∧
+    Inv (step fuelOf o c).1 ∧ (step fuelOf o c).1.blockages = o.blockages ∧ (step fuelOf o c).1.fixed = o.fixed ∧
+    (step fuelOf o c).1.W = o.W ∧ (step fuelOf o c).1.H = o.H ∧
+    PiecesOf (fpRects o).1 (fpRects (step fuelOf o c).1).1 ∧
+    ((fpRects (step fuelOf o c).1).1.map Rect.area).sum = ((fpRects o).1.map Rect.area).sum ∧
+    ((step fuelOf o c).2 = none → match c with
+      | .split ratio n => n ≤ (fpRects (step fuelOf o c).1).1.length ∧
+          ∀ r ∈ (fpRects (step fuelOf o c).1).1, r.aspectRatio ≤ ratio
+      | .grid nr nc => (fpRects (step fuelOf o c).1).1.length = nr * nc) := by
+  cases c with
+  | split ratio n =>
+    cases hs : DieObj.split (fuelOf (fpRects o).1 ratio n) o ratio n with
+    | error e =>
+      have hst : step fuelOf o (.split ratio n) = (o, some e) := by simp only [step, hs]
+      rw [hst]
+      exact ⟨fun _ => rfl, hinv, rfl, rfl, rfl, rfl, piecesOf_refl _ hinv.proper, rfl, fun h => by cases h⟩
+    | ok o' =>
+      have hst : step fuelOf o (.split ratio n) = (o', none) := by simp only [step, hs]
+      rw [hst]
+      obtain ⟨a1, a2, a3, a4, a5, a6, a7, a8⟩ := obj_split_spec _ o o' ratio n hinv hs
+      exact ⟨fun h => absurd rfl h, a1, a2, a3, a4, a5, piecesOf_of_refines _ _ a6, refines_area _ _ a6, fun _ => ⟨a7, a8⟩⟩
+  | grid nr nc =>
+    cases hs : DieObj.grid o nr nc with
+    | error e =>
+      have hst : step fuelOf o (.grid nr nc) = (o, some e) := by simp only [step, hs]
+      rw [hst]
+      exact ⟨fun _ => rfl, hinv, rfl, rfl, rfl, rfl, piecesOf_refl _ hinv.proper, rfl, fun h => by cases h⟩
+    | ok o' =>
+      have hst : step fuelOf o (.grid nr nc) = (o', none) := by simp only [step, hs]
+      rw [hst]
+      obtain ⟨a1, a2, a3, a4, a5, a6, a7, _⟩ := obj_grid_spec o o' nr nc hinv hs
+      exact ⟨fun h => absurd rfl h, a1, a2, a3, a4, a5, piecesOf_of_refines _ _ a6, refines_area _ _ a6, fun _ => a7⟩
+
+/-- **any session** — after ANY sequence of `split_refinable_regions` / `initial_grid` calls (returning or raising, any
+    arguments) on a die object that tiles its die exactly: the object still tiles the die exactly; blockages, fixed regions
+    and the die size are the ones of the constructed object (stated on the `Die`-level value the constructor model returns, not on a
+    list); every refinable region lies inside one of the ORIGINAL refinable regions and carries its tag and flags; and the
+    refinable regions cover the same total area as at construction. -/
+theorem session_invariant (fuelOf : List (Rect α) → α → Nat → Nat) (cs : List (Call α)) (o : DieOut α) (hinv : Inv o) :
+    Inv (run fuelOf o cs).1 ∧ (run fuelOf o cs).1.blockages = o.blockages ∧ (run fuelOf o cs).1.fixed = o.fixed ∧
+    (run fuelOf o cs).1.W = o.W ∧ (run fuelOf o cs).1.H = o.H ∧
+    PiecesOf (fpRects o).1 (fpRects (run fuelOf o cs).1).1 ∧
+    ((fpRects (run fuelOf o cs).1).1.map Rect.area).sum = ((fpRects o).1.map Rect.area).sum := by
+  induction cs generalizing o with
+  | nil => exact ⟨hinv, rfl, rfl, rfl, rfl, piecesOf_refl _ hinv.proper, rfl⟩
+  | cons c cs ih =>
+    obtain ⟨_, s1, s2, s3, s4, s5, s6, s7, _⟩ := step_spec fuelOf o c hinv
+    obtain ⟨i1, i2, i3, i4, i5, i6, i7⟩ := ih (step fuelOf o c).1 s1
+    simp only [run]
+    exact ⟨i1, i2.trans s2, i3.trans s3, i4.trans s4, i5.trans s5, piecesOf_trans _ _ _ s6 i6, i7.trans s7⟩
+
+/-- the object the constructor returns for a valid description starts every session in the invariant: C01's `die_sound`
+    clauses (ground regions proper and tagged ground, document regions proper and not tagged ground) and an exact tiling. -/
+theorem inv_of_constructed (o : DieOut α) (ht : C01.ExactTiling o)
+    (hg : ∀ g ∈ o.ground, g.region = KW_GROUND ∧ g.fixed = false ∧ g.hard = false ∧ 0 < g.w ∧ 0 < g.h)
+    (hs : ∀ s ∈ o.specialized, s.region ≠ KW_GROUND ∧ 0 < s.w ∧ 0 < s.h) : Inv o := by
+  refine ⟨ht, ?_, fun g hgm => ⟨(hg g hgm).1, (hg g hgm).2.1, (hg g hgm).2.2.1⟩, fun s hsm => (hs s hsm).1⟩
+  intro r hr
+  rcases List.mem_append.mp hr with c | c
+  · exact (hs r c).2
+  · exact ⟨(hg r c).2.2.2.1, (hg r c).2.2.2.2⟩
+
+/-- **`split_refinable_regions` on the object at `ℚ`, no fuel, no side condition** (beyond `n ≥ 1`, `ratio > 1.415`): on every
+    object in the invariant the call either raises `IndexError` — exactly when the die has no refinable region — or returns
+    an object that satisfies the whole property. -/
+theorem obj_splitQ_total (o : DieOut ℚ) (ratio : ℚ) (n : Nat) (hn : 1 ≤ n) (hratio : ratioMin < ratio) (hinv : Inv o) :
+    ((fpRects o).1 = [] ∧ splitQ o ratio n = .error .index) ∨
+    ((fpRects o).1 ≠ [] ∧ ∃ o', splitQ o ratio n = .ok o' ∧ Inv o' ∧ o'.blockages = o.blockages ∧ o'.fixed = o.fixed ∧
+      o'.W = o.W ∧ o'.H = o.H ∧ Refines (fpRects o).1 (fpRects o').1 ∧ n ≤ (fpRects o').1.length ∧
+      ∀ r ∈ (fpRects o').1, r.aspectRatio ≤ ratio) := by
+  by_cases he : (fpRects o).1 = []
+  · refine Or.inl ⟨he, ?_⟩
+    unfold splitQ DieObj.split
+    rw [dieSplit_no_refinable _ (toSt o) ratio n (by unfold fuelQ; omega) hn hratio he]
+  · refine Or.inr ⟨he, ?_⟩
+    obtain ⟨outs, h, _⟩ := splitQ_returns (fpRects o).1 ratio n he hn hratio hinv.proper
+    have hs : ∃ s, splitRefinableRegions (fuelQ (fpRects o).1 ratio n) (toSt o) ratio n = .ok s := by
+      unfold splitRefinableRegions
+      rw [if_neg (by omega), if_neg (by simp [hratio])]
+      have e : (toSt o).specialized ++ (toSt o).ground = (fpRects o).1 := rfl
+      unfold splitRectanglesQ at h
+      rw [e, h]
+      exact ⟨_, rfl⟩
+    obtain ⟨s, hs⟩ := hs
+    have ho : splitQ o ratio n = .ok (withSt o s) := by
+      unfold splitQ DieObj.split
+      rw [hs]
+    exact ⟨withSt o s, ho, obj_split_spec _ o (withSt o s) ratio n hinv ho⟩
+
+/-- **from the documents to any session** (C01 ∘ C11): the object `Die(stream, netlist)` returns for a description that is tiled
+    exactly (`FV.C01.construct_complete`: every valid description) is in the invariant; hence after ANY session of refinement
+    calls it still tiles the die exactly, and its blockages and fixed regions — the rectangles of the netlist's fixed modules
+    (`FV.C01.construct_fixed_of_netlist`) — are still the ones the constructor reported. -/
+theorem constructed_session (pf : List Char → Option α) (ry : String → Option (YV α)) (sqrt : α → α) (tiny : α)
+    (stogOf : α → α → List (NL.NRect α) → List (NL.NRect α)) (st : Option (α × α)) (ndoc : Option (YVal α))
+    (src : DieNet.Src α) (picks : Option (List IRect)) (out : DieOut α) (e : Eps α) (st' : α × α)
+    (h : DieNet.construct pf ry sqrt tiny stogOf st ndoc src picks = .ok (out, e, st')) (ht : C01.ExactTiling out)
+    (fuelOf : List (Rect α) → α → Nat → Nat) (cs : List (Call α)) :
+    Inv out ∧ C01.ExactTiling (run fuelOf out cs).1 ∧ (run fuelOf out cs).1.blockages = out.blockages ∧
+    (run fuelOf out cs).1.fixed = out.fixed ∧ (run fuelOf out cs).1.W = out.W ∧ (run fuelOf out cs).1.H = out.H ∧
+    PiecesOf (fpRects out).1 (fpRects (run fuelOf out cs).1).1 := by
+  obtain ⟨st1, fixed, inp, _, hp, _, _, _, _, e3, _, _, hg, _⟩ :=
+    C01.construct_sound pf ry sqrt tiny stogOf st ndoc src picks out e st' h
+  obtain ⟨_, _, hreg⟩ := C01.parseYamlDie_sound pf ry src inp hp
+  have hinv : Inv out := by
+    refine inv_of_constructed out ht hg ?_
+    intro s hs
+    rw [e3] at hs
+    have hs' := (List.mem_filter.mp hs).1
+    obtain ⟨_, _, _, _, _, hw, hh, hne, _⟩ := C01.parseRect_ok _ s (hreg s hs')
+    exact ⟨hne, hw, hh⟩
+  obtain ⟨i1, i2, i3, i4, i5, i6, _⟩ := session_invariant fuelOf cs out hinv
+  exact ⟨hinv, i1.tiling, i2, i3, i4, i5, i6⟩
+
+/-! ### non-vacuity of the object-level theorems (executed at `ℚ`) -/
+
+/-- the object of an 8×4 die with a tagged region, one ground region, a blockage and a fixed region (cf. `dieEx`). -/
+def objEx : DieOut ℚ :=
+  { W := 8, H := 4,
+    specialized := [⟨7, 2, 2, 4, "dsp", false, false, .nopoly⟩],
+    ground := [⟨5/2, 2, 5, 4, "_", false, false, .nopoly⟩],
+    blockages := [⟨11/2, 1, 1, 2, "#", false, false, .nopoly⟩],
+    fixed := [⟨11/2, 3, 1, 2, "_", true, true, .nopoly⟩] }
+
+theorem objEx_inv : Inv objEx := by
+  refine ⟨⟨?_, ?_, ?_⟩, ?_, ?_, ?_⟩
+  · decide +kernel
+  · decide +kernel
+  · decide +kernel
+  · intro r hr; simp [fpRects, floorplanningRectangles, toSt, objEx] at hr; rcases hr with rfl | rfl <;> norm_num
+  · decide +kernel
+  · decide +kernel
+
+/-- `obj_splitQ_total` applied: the second alternative holds (there are refinable regions), without any fuel. -/
+example : ∃ o', splitQ objEx (142/100) 7 = .ok o' ∧ Inv o' ∧ o'.fixed = objEx.fixed ∧ 7 ≤ (fpRects o').1.length := by
+  rcases obj_splitQ_total objEx (142/100) 7 (by norm_num) (by norm_num [ratioMin]) objEx_inv with ⟨he, _⟩ | ⟨_, o', h, hi, _, hf, _, _, _, hc, _⟩
+  · simp [fpRects, floorplanningRectangles, toSt, objEx] at he
+  · exact ⟨o', h, hi, hf, hc⟩
+
+/-- a fully blocked die has no refinable region: `IndexError`, for every admissible request (`obj_splitQ_total`, first
+    alternative; `dieSplit_no_refinable`). -/
+def objBlocked : DieOut ℚ :=
+  { W := 5, H := 4, specialized := [], ground := [], blockages := [⟨5/2, 2, 5, 4, "#", false, false, .nopoly⟩], fixed := [] }
+example : splitQ objBlocked 2 3 = .error .index := by
+  unfold splitQ DieObj.split
+  rw [dieSplit_no_refinable _ (toSt objBlocked) 2 3 (by unfold fuelQ; omega) (by norm_num) (by norm_num [ratioMin]) rfl]
+
+/-- `session_invariant` applied to a session in which the second call must raise (the die is no longer clean). -/
+example : let o' := (run fuelQ objEx [.split (3/2) 4, .grid 2 2, .split 2 9]).1
+    C01.ExactTiling o' ∧ o'.fixed = objEx.fixed ∧ o'.blockages = objEx.blockages := by
+  obtain ⟨i, b, f, _⟩ := session_invariant fuelQ [.split (3/2) 4, .grid 2 2, .split 2 9] objEx objEx_inv
+  exact ⟨i.tiling, f, b⟩
+
+
+end die_object
 
 end FV.C11
